@@ -1743,7 +1743,7 @@ func (p *Parser) parseExpression(prec OpPrec) IExpr {
 		}
 		p.next()
 		left = &UnaryExpr{PreIncrToken, p.parseExpression(OpUnary)}
-		precLeft = OpUnary
+		precLeft = OpUpdate // a prefix increment/decrement is an UpdateExpression, e.g. `++a ** b` is valid
 	case DecrToken:
 		if OpUpdate < prec {
 			p.fail("expression")
@@ -1751,7 +1751,7 @@ func (p *Parser) parseExpression(prec OpPrec) IExpr {
 		}
 		p.next()
 		left = &UnaryExpr{PreDecrToken, p.parseExpression(OpUnary)}
-		precLeft = OpUnary
+		precLeft = OpUpdate // a prefix increment/decrement is an UpdateExpression, e.g. `++a ** b` is valid
 	case AwaitToken:
 		// either accepted as IdentifierReference or as AwaitExpression
 		if p.await && prec <= OpUnary {
